@@ -539,4 +539,19 @@ theorem run_loop_ub {d : LebDecoder} (hd : WF d) (hm : 7 * d.maxBytes < d.width 
   obtain ⟨_, _, _, _, _, _, t7, _⟩ := loop_total hd d.maxBytes bs St.init
   simpa [St.init] using t7 (by simp [St.init]; omega)
 
+/-- A decoder call performs no undefined operation when its loop cannot shift by `≥ width` and its sign
+    extension is written with the unsigned mask (or it is unsigned). -/
+theorem run_ub_false {d : LebDecoder} (hd : WF d) (hm : 7 * d.maxBytes < d.width + 7) (hg : d.guardBits ≤ d.width)
+    (hform : d.signExtForm = "unsignedMask" ∨ d.signed = false) (bs : Bytes) : (run d bs).1.ub = false := by
+  have hl := run_loop_ub hd hm bs
+  cases hub : (run d bs).1.ub with
+  | false => rfl
+  | true =>
+    exfalso
+    rcases signExtend_ub d _ hg hub with h | ⟨hf, hsg, _, _⟩
+    · rw [hl] at h; exact absurd h (by decide)
+    · rcases hform with h | h
+      · exact hf h
+      · rw [h] at hsg; exact absurd hsg (by decide)
+
 end W2c2Verif.Lemmas.Leb
